@@ -293,9 +293,9 @@ Print Assumptions doc_step.
 
 (* conversely, on operands of the kinds the type checker accepts, a successful step of a code-free built-in IS an
    instance of its documented rule: on well-typed operands the model and the documentation coincide step by step *)
-Theorem doc_sound_step : forall fmt cw G ent rec wh call b s s1 st st',
-  check_builtin G ent call b s = Some s1 -> control b = false ->
-  state_ok G ent st -> sabs (st_stack st) s ->
+Theorem doc_sound_step : forall fmt cw G ent tys rec wh call cid b s s1 st st',
+  check_builtin G ent tys call cid b s = Some s1 -> control b = false ->
+  state_ok G ent tys st -> sabs (st_stack st) s ->
   builtin_step fmt cw rec wh b st = Ok st' -> builtin_doc fmt cw b st st'.
 Proof. exact Proofs.BstDoc.doc_sound_step. Qed.
 Print Assumptions doc_sound_step.
@@ -426,17 +426,18 @@ Proof. exact Proofs.BstLaws.warning_law. Qed.
 Print Assumptions warning_law.
 
 (* --- type soundness: a program accepted by the checker of Spec/BstTyping.v (integers, strings / missing
-       fields, function literals, quoted variables; all built-ins except call.type$ and stack$; user functions
-       followed; int.to.chr$ : integer -> string; if$ branches must agree, while$ conditions leave one integer, bodies nothing), run from a
+       fields, function literals, quoted variables; ALL built-ins -- call.type$ is checked for every entry type [tys]
+       of the database, stack$ / top$ / int.to.str$ only where no function value or quoted variable would be
+       printed --; user functions followed; int.to.chr$ : integer -> string; if$ branches must agree, while$ conditions leave one integer, bodies nothing), run from a
        well-formed state, never raises a foreign Python exception -- whatever the fuel -- and when it ends
        normally the stack has the computed shape and the state is well-formed again.
        Hypothesis on the library function: format_name itself raises no foreign exception. *)
-Theorem welltyped_no_crash : forall fmt cw G ent cf s p s',
+Theorem welltyped_no_crash : forall fmt cw G ent tys cf s p s',
   (forall n f, fmt n f <> Crash) -> ctx_ok G = true ->
-  check G ent cf s p = Some s' ->
-  forall n st, state_ok G ent st -> sabs (st_stack st) s ->
+  check G ent tys cf s p = Some s' ->
+  forall n st, state_ok G ent tys st -> sabs (st_stack st) s ->
   exec fmt cw n st p <> Crash /\
-  (forall st', exec fmt cw n st p = Ok st' -> state_ok G ent st' /\ sabs (st_stack st') s').
+  (forall st', exec fmt cw n st p = Ok st' -> state_ok G ent tys st' /\ sabs (st_stack st') s').
 Proof. exact Proofs.BstTyping.welltyped_no_crash. Qed.
 Print Assumptions welltyped_no_crash.
 
@@ -455,16 +456,16 @@ Proof. exact Proofs.BstReal.format_name_law_real. Qed.
 Print Assumptions format_name_law_real.
 
 (* type soundness without any hypothesis about name formatting (C11's format_name_no_crash) *)
-Theorem welltyped_no_crash_real : forall cw G ent cf s p s',
-  ctx_ok G = true -> check G ent cf s p = Some s' ->
-  forall n st, state_ok G ent st -> sabs (st_stack st) s ->
+Theorem welltyped_no_crash_real : forall cw G ent tys cf s p s',
+  ctx_ok G = true -> check G ent tys cf s p = Some s' ->
+  forall n st, state_ok G ent tys st -> sabs (st_stack st) s ->
   exec_real cw n st p <> Crash /\
-  (forall st', exec_real cw n st p = Ok st' -> state_ok G ent st' /\ sabs (st_stack st') s').
+  (forall st', exec_real cw n st p = Ok st' -> state_ok G ent tys st' /\ sabs (st_stack st') s').
 Proof. exact Proofs.BstReal.welltyped_no_crash_real. Qed.
 Print Assumptions welltyped_no_crash_real.
 
-Theorem state_ok_start : forall G st, ctx_ok G = true -> st_vars st = G -> st_evars st = [] -> st_buf st = [] ->
-  state_ok G false st.
+Theorem state_ok_start : forall G tys st, ctx_ok G = true -> st_vars st = G -> st_evars st = [] -> st_buf st = [] ->
+  state_ok G false tys st.
 Proof. exact Proofs.BstTyping.state_ok_start. Qed.
 Print Assumptions state_ok_start.
 
@@ -566,11 +567,11 @@ Definition prog1 :=
    IId (s2l "gi"); IFun [IStr (s2l "yes")]; IFun [IInt 65; IId (s2l "int.to.chr$")]; IId (s2l "if$");
    IId (s2l "duplicate$"); IId (s2l "*"); IQuote (s2l "gs"); IId (s2l ":="); IId (s2l "newline$")].
 Example welltyped_example :
-  ctx_ok G1 = true /\ check G1 false 40 [] prog1 = Some [] /\
+  ctx_ok G1 = true /\ check G1 false [] 40 [] prog1 = Some [] /\
   (* ... and it is not accepted when an operand has the wrong kind *)
-  check G1 false 40 [] [IStr (s2l "a"); IInt 1; IId (s2l "+")] = None /\
-  check G1 false 40 [] [IInt 2147483648; IId (s2l "int.to.chr$")] = Some [AStr] /\
-  check G1 false 40 [] [IInt 65; IId (s2l "int.to.chr$")] = Some [AStr].
+  check G1 false [] 40 [] [IStr (s2l "a"); IInt 1; IId (s2l "+")] = None /\
+  check G1 false [] 40 [] [IInt 2147483648; IId (s2l "int.to.chr$")] = Some [AStr] /\
+  check G1 false [] 40 [] [IInt 65; IId (s2l "int.to.chr$")] = Some [AStr].
 Proof. vm_compute. repeat split. Qed.
 Example welltyped_run_example :
   let st := set_vars (initial_state [] []) G1 in
